@@ -171,6 +171,7 @@ func c10Body(t *rapid.T) {
 	nAccepted, nRejected, nFailed, nRestart, nDelete := 0, 0, 0, 0, 0
 	overlapAccepted := false
 	nConcurrent := 0
+	nNoAuto := 0
 
 	othersUnion := func(target int, except string) map[string]bool {
 		u := map[string]bool{}
@@ -227,6 +228,11 @@ func c10Body(t *rapid.T) {
 		if role {
 			req["extra_info"] = map[string]any{"enable_user_role": true}
 		}
+		// a task that is not started automatically (it stays paused across a restart) owns its collections like any other
+		noAuto := rapid.IntRange(0, 3).Draw(t, "disableAutoStart") == 0
+		if noAuto {
+			req["disable_auto_start"] = true
+		}
 		mapKind := rapid.IntRange(0, 5).Draw(t, "mapping")
 		switch mapKind {
 		case 0: // mapping of the named database (valid iff the spec covers it)
@@ -234,7 +240,10 @@ func c10Body(t *rapid.T) {
 		case 1:
 			req["name_mapping"] = []any{map[string]any{"source_db": "default", "target_db": "x0", "collection_mapping": map[string]any{"c1": "y1"}}}
 		}
-		desc := fmt.Sprintf("create(%s,t%d,role=%v,map=%d,fail=%s)", sp, target, role, mapKind, failAt)
+		desc := fmt.Sprintf("create(%s,t%d,role=%v,map=%d,noAuto=%v,fail=%s)", sp, target, role, mapKind, noAuto, failAt)
+		if noAuto {
+			nNoAuto++
+		}
 		before := bookkeeping(w.inc.cdc.VerifSnapshot())
 		dumpBefore := strings.Join(w.dumpMeta(t), "\n")
 		if failAt != "" {
@@ -435,6 +444,7 @@ func c10Body(t *rapid.T) {
 	st.ClassIf(nRejected > 0, "rejected_create")
 	st.ClassIf(nFailed > 0, "failed_create_after_bookkeeping")
 	st.ClassIf(nConcurrent > 0, "concurrent_creates")
+	st.ClassIf(nNoAuto > 0 && nRestart > 0, "task_without_auto_start_across_a_restart")
 	st.ClassIf(nRestart > 0, "restart")
 	st.ClassIf(nDelete > 0, "delete")
 	st.Count("creates_accepted", nAccepted)
